@@ -30,25 +30,27 @@ type c13Call struct {
 }
 
 type c13 struct {
-	rt         *rapid.T
-	s          *sim.SessSim
-	X, Y       *kcp.UDPSession
-	connX      *sim.PConn
-	connY      *sim.PConn
-	interval   int
-	readers    []*c13Call
-	writers    []*c13Call
-	rd, wd     int64 // deadline in force in ms since start, noDeadline = none
-	rdSetAt    int64
-	wdSetAt    int64
-	closed     bool
-	closes     int
-	readErr    error
-	writeErr   error
-	writeErrAt int // connX.Writes when the write error was injected
-	writableAt int64
-	err        error
-	trace      []string
+	rt             *rapid.T
+	s              *sim.SessSim
+	X, Y           *kcp.UDPSession
+	L              *kcp.Listener // the listener that handed out X, if any
+	listenerClosed bool
+	connX          *sim.PConn
+	connY          *sim.PConn
+	interval       int
+	readers        []*c13Call
+	writers        []*c13Call
+	rd, wd         int64 // deadline in force in ms since start, noDeadline = none
+	rdSetAt        int64
+	wdSetAt        int64
+	closed         bool
+	closes         int
+	readErr        error
+	writeErr       error
+	writeErrAt     int // connX.Writes when the write error was injected
+	writableAt     int64
+	err            error
+	trace          []string
 
 	// statistics for the non-triviality rule
 	deadlineWhileBlocked, closeWhileBlocked, errWhileBlocked, multiBlocked int
@@ -392,8 +394,28 @@ func newC13(rt *rapid.T) *c13 {
 	fec := rapid.SampledFrom([][2]int{{0, 0}, {0, 0}, {2, 1}, {1, 1}}).Draw(rt, "fec")
 	addrX, addrY := &net.UDPAddr{IP: net.IPv4(10, 0, 0, 1), Port: 1}, &net.UDPAddr{IP: net.IPv4(10, 0, 0, 2), Port: 2}
 	m.connX, m.connY = m.s.Net.Listen(addrX), m.s.Net.Listen(addrY)
-	m.X, _ = kcp.NewConn3(77, addrY, nil, fec[0], fec[1], m.connX)
 	m.Y, _ = kcp.NewConn3(77, addrX, nil, fec[0], fec[1], m.connY)
+	if rapid.IntRange(0, 2).Draw(rt, "xAccepted") == 0 {
+		// X is a session handed out by a listener: it has no receive loop of its
+		// own, the listener's loop reads the socket for it and passes socket
+		// errors on - also after the listener itself has been closed
+		m.L, _ = kcp.ServeConn(nil, fec[0], fec[1], m.connX)
+		m.Y.Write([]byte{0x5a})
+		m.s.SleepTo(m.s.Now() + 200)
+		x, err := m.L.AcceptKCP() // the session is waiting in the backlog
+		if err != nil {
+			rt.Fatalf("setup: accept: %v", err)
+		}
+		m.X = x
+		buf := make([]byte, 8)
+		if n, err := m.X.Read(buf); n != 1 || err != nil { // the byte is readable already
+			rt.Fatalf("setup: first byte: %d, %v", n, err)
+		}
+		m.s.SleepTo(m.s.Now() + 200) // the acknowledgement of that byte is home
+		m.log("X is an accepted session")
+	} else {
+		m.X, _ = kcp.NewConn3(77, addrY, nil, fec[0], fec[1], m.connX)
+	}
 	m.interval = rapid.SampledFrom([]int{10, 40}).Draw(rt, "interval")
 	m.X.SetWindowSize(rapid.SampledFrom([]int{1, 2, 4}).Draw(rt, "xsnd"), 32)
 	m.X.SetNoDelay(1, m.interval, 2, 1)
@@ -421,6 +443,9 @@ func (m *c13) shutdown() {
 	m.s.AfterEvent = nil
 	m.X.Close()
 	m.Y.Close()
+	if m.L != nil {
+		m.L.Close()
+	}
 	m.connX.Close()
 	m.connY.Close()
 	m.s.Drain(5000)
@@ -466,6 +491,15 @@ func TestC13Session(t *testing.T) {
 				"advance2":     func(t *rapid.T) { m.advance(t) },
 				"close":        wrap(m.closeX),
 				"socketError":  wrap(m.socketError),
+				"listenerClose": wrap(func(t *rapid.T) {
+					if m.L == nil || m.listenerClosed {
+						t.Skip("no listener to close")
+					}
+					m.listenerClosed = true
+					m.L.Close() // the socket is the caller's: the session goes on
+					m.log("Close of the listener that handed out X")
+					m.s.Quiesce()
+				}),
 				"": func(t *rapid.T) {
 					steps++
 					m.invariant()
@@ -494,6 +528,12 @@ func TestC13Session(t *testing.T) {
 		}
 		if m.timeouts > 0 {
 			cl = append(cl, "timeout_returned")
+		}
+		if m.L != nil {
+			cl = append(cl, "session_handed_out_by_a_listener")
+			if m.listenerClosed {
+				cl = append(cl, "its_listener_closed_meanwhile")
+			}
 		}
 		if m.dataWakes > 0 {
 			cl = append(cl, "read_returned_data")
